@@ -127,6 +127,12 @@ func (b *mkBuilder) ogMetas() []string {
 			dep = append(dep, mkOgMeta("article:author", fmt.Sprintf("https://people.example.org/%s-%d", b.tk("og", "authors"), k)))
 		}
 	}
+	// article:* properties only mean something for og:type article; pages of another type sometimes
+	// carry them anyway (they come after og:type here, so the measured abstraction ignores them)
+	if typ != "article" && s.F["type"] == "present" && b.g.rng.Intn(3) == 0 {
+		dep = append(dep, mkOgMeta("article:author", "https://people.example.org/"+b.tk("og", "authors")+"-9"),
+			mkOgMeta("article:section", b.tk("og", "section")))
+	}
 	b.shuffle(dep)
 	return append(core, dep...)
 }
